@@ -215,8 +215,12 @@ func runSolver(cfg solverCfg, file string, timeout time.Duration) (status string
 	case "unknown", "timeout":
 		return "unknown", out, ms
 	}
-	if ctx.Err() != nil {
+	if ctx.Err() != nil || strings.Contains(out, "interrupted by timeout") || strings.Contains(out, "out of memory") || strings.Contains(out, "Killed") {
 		return "timeout", out, ms
+	}
+	if !strings.Contains(out, "(error") {
+		// no verdict and no error message (a solver that was killed or aborted on resource limits): inconclusive
+		return "unknown", out, ms
 	}
 	return "error", out, ms
 }
@@ -376,7 +380,9 @@ func (pr *Prover) discharge(vc *VC, o *Oblig, prelude string, axioms []string) *
 					sat = &rs[i]
 				}
 			case "error":
-				errRes = &rs[i]
+				if !r.a.stripped {
+					errRes = &rs[i] // (an error of an auxiliary attempt on the weakened script is only that attempt's failure)
+				}
 			default:
 				v.Output = r.out
 			}
